@@ -363,6 +363,31 @@ fn eval(case: Case) -> Outcome {
     }
 }
 
+fn mix64(mut z: u64) -> u64 {
+    z = z.wrapping_add(0x9E3779B97F4A7C15);
+    z = (z ^ (z >> 30)).wrapping_mul(0xBF58476D1CE4E5B9);
+    z = (z ^ (z >> 27)).wrapping_mul(0x94D049BB133111EB);
+    z ^ (z >> 31)
+}
+
+fn evaluation_hash(case: Case, out: &Outcome) -> u64 {
+    let (x, y): (u64, u64) = match case {
+        Case::And(a, b) | Case::Or(a, b) | Case::VAnd(a, b) | Case::VOr(a, b) => (a as u32 as u64, b as u32 as u64),
+        Case::VNot(v) | Case::I2B(v) | Case::IRound(v) => (v as u32 as u64, 0),
+        Case::B2I(lo, hi) | Case::BRound(lo, hi) => (lo as u64, hi as u64),
+        Case::F2B(b) | Case::B2F(b) | Case::FRound(b) => (b, 0),
+    };
+    let r: u64 = match &out.real {
+        Ok(Val::I(i)) => *i as u32 as u64,
+        Ok(Val::B2(b)) => u16::from_le_bytes(*b) as u64,
+        Ok(Val::B8(b)) => u64::from_le_bytes(*b),
+        Ok(Val::F(b)) => *b,
+        Ok(Val::Other(s)) => s.bytes().fold(7u64, |h, c| mix64(h ^ c as u64)),
+        Err(_) => 0xDEAD_BEEF_0BAD_F00D,
+    };
+    mix64(mix64(mix64(mix64(case.fn_id() as u64) ^ x) ^ y) ^ r)
+}
+
 /// Which IEEE fields differ, for the one line description only (not part of the signature).
 fn field_diff(real: u64, expected: u64) -> String {
     let mut v = vec![];
@@ -449,6 +474,9 @@ struct Stats {
     panics: [u64; 12],
     /// number of distinct-or-not doubles checked per input class (counted on f64_to_bytes calls)
     double_classes: [u64; 5],
+    /// order independent digest over (case, real result) of every evaluation; equal digests
+    /// between two builds mean every single call returned the same thing
+    digest: u64,
     /// at most PER_SIG_KEEP failures per signature, in encounter order
     failures: Vec<Failure>,
     sigs: BTreeMap<String, SigInfo>,
@@ -462,6 +490,7 @@ impl Stats {
             self.double_classes[f64_class_id(b)] += 1;
         }
         let out = eval(case);
+        self.digest = self.digest.wrapping_add(evaluation_hash(case, &out));
         if out.ok() {
             return;
         }
@@ -507,6 +536,7 @@ impl Stats {
         for i in 0..5 {
             self.double_classes[i] += other.double_classes[i];
         }
+        self.digest = self.digest.wrapping_add(other.digest);
         for (sig, info) in other.sigs {
             match self.sigs.get_mut(&sig) {
                 Some(mine) => {
@@ -1042,8 +1072,10 @@ fn to_json(mode: &str, seed: u64, threads: u64, elapsed_ms: u128, r: &RunResult)
     let _ = writeln!(s, "  \"seed\": {},", seed);
     let _ = writeln!(s, "  \"threads\": {},", threads);
     let _ = writeln!(s, "  \"debug_assertions\": {},", cfg!(debug_assertions));
+    let _ = writeln!(s, "  \"miri\": {},", cfg!(miri));
     let _ = writeln!(s, "  \"elapsed_ms\": {},", elapsed_ms);
     let _ = writeln!(s, "  \"evaluations\": {},", evaluations);
+    let _ = writeln!(s, "  \"evaluation_digest\": \"{:016x}\",", st.digest);
     let _ = writeln!(s, "  \"distinct_nontrivial\": {},", distinct_nontrivial);
     s.push_str("  \"distinct_nontrivial_breakdown\": {");
     s.push_str(&r.distinct.iter().map(|(k, v)| format!("{}: {}", jstr(k), v)).collect::<Vec<_>>().join(", "));
@@ -1308,6 +1340,14 @@ fn main() {
         None => print!("{}", json),
     }
     let st = &result.stats;
+    if cfg!(miri) {
+        // Miri adds a random error of a few ULP to float intrinsics such as powi (which
+        // bytes_to_f64 uses) unless told otherwise; results are only comparable with native
+        // runs under MIRIFLAGS=-Zmiri-deterministic-floats.
+        eprintln!(
+            "bitmon: running under Miri; use MIRIFLAGS=-Zmiri-deterministic-floats, otherwise powi gets random rounding error"
+        );
+    }
     eprintln!(
         "bitmon {}: {} evaluations, {} mismatches, {} panics, {} signatures, {} ms",
         mode,
